@@ -28,6 +28,8 @@ macro_rules! dispatch {
             "C02" => driver::$f(scenarios::c02::C02, $($arg),*),
             "C05" => driver::$f(scenarios::c05::C05, $($arg),*),
             "C10" => driver::$f(scenarios::c10::C10, $($arg),*),
+            "C13" => driver::$f(scenarios::c13::C13, $($arg),*),
+            "C17" => driver::$f(scenarios::c17::C17, $($arg),*),
             other => {
                 eprintln!("HARNESS-ERROR unknown property {other}");
                 2
